@@ -15,7 +15,7 @@ func init() {
 		Assume: []string{"composite objects carry no MD5 (not compared)", "compose destination names containing '/compose' and copy source names containing '/rewriteTo/' are not sent (ambiguous URL forms)", "0 sources is not sent (unspecified)"},
 		Run:    runC15,
 	})
-	expectedProbes["C15"] = []string{"c15.compose_ok", "c15.compose_32", "c15.compose_33", "c15.compose_missing_source", "c15.compose_dest_among_sources", "c15.copy_ok", "c15.copy_cross_bucket", "c15.copy_dest_with_slash_o", "c15.copy_missing_source", "c15.compose_empty_source"}
+	expectedProbes["C15"] = []string{"c15.compose_ok", "c15.compose_32", "c15.compose_33", "c15.compose_missing_source", "c15.compose_dest_among_sources", "c15.copy_ok", "c15.copy_cross_bucket", "c15.copy_dest_with_slash_o", "c15.copy_missing_source", "c15.compose_empty_source", "c15.compose_without_destination"}
 }
 
 var c15DstMem = []string{"dst.bin", "out/dir/x.txt", "x/o/y", "a/o/b/o/c", "sp ace/o ut", "d.o.t/..x", "pct%2Fz", "a.txt"}
@@ -80,6 +80,12 @@ func runC15(r *Run) {
 				case 2:
 					dm["contentType"] = "text/plain"
 					dm["metadata"] = map[string]string{"composed": fmt.Sprint(i)}
+				}
+				if d.n(8) == 7 {
+					// a request body without a "destination" member: the object is still the
+					// concatenation and every source stays as it is
+					r.Probe("c15.compose_without_destination")
+					return gOp{Kind: "Compose", Bucket: "bkt", Name: dst, Srcs: srcs, SrcGens: gens, NoDest: true}
 				}
 				return gOp{Kind: "Compose", Bucket: "bkt", Name: dst, Srcs: srcs, SrcGens: gens, DstMeta: dm}
 			case 1:
